@@ -236,6 +236,28 @@ pub fn run_threads(out_prefix: &str, shards: usize, seed: u64, scale: usize) -> 
                 "calls":[["same", false, false, "ok", [fp_before == fp_after, fp_before.len(), fp_after.len()], 0]]}));
             nev += 1;
         }
+        // one buffer reused for different contents of the same length (same address, same length):
+        // a result must depend on the bytes, not on where they live
+        {
+            let len = 48usize;
+            let mut buf = vec![0u8; len];
+            for round in 0..24 {
+                let src = &hays[(round * 5 + 1) % hays.len()];
+                // every other round the buffer holds no occurrence at all (a miss), then the
+                // same memory holds a haystack with occurrences again
+                let filler = *[b'_', b'~', 0x01, b'0'].iter().find(|b| !pats.iter().any(|q| q.contains(b) || q.contains(&b.to_ascii_uppercase()))).unwrap_or(&b'_');
+                for (j, b) in buf.iter_mut().enumerate() {
+                    *b = if round % 2 == 0 || j >= src.len() { filler } else { src[j] };
+                }
+                let m = ac.find(&buf);
+                let it: Vec<Value> = ac.find_iter(&buf).map(|m| m2v(&m)).collect();
+                let im = ac.is_match(&buf);
+                out.put(i, &json!({"ev":"multi","c":cl,"hay":buf,"s":0,"e":len,"thread":-2,
+                    "calls":[["find", false, false, "ok", om2v(&m), round],["iter", false, false, "ok", it, round],
+                             ["is_match", false, false, "ok", im, round]]}));
+                nev += 3;
+            }
+        }
         // sequential histories: the same calls in another order and interleaved with
         // unrelated searches, on the same value
         let mut order: Vec<usize> = (0..hays.len()).collect();
